@@ -247,6 +247,9 @@ def run(ctx, report):
     far_order_rule(ctx, R8)
 
     # ---------------------------------------------------------------- D9 a memory operand rendered under a suffix-less AT&T mnemonic assembles back
+    R16 = report.rule('C09.D16', 'branch operands in AT&T syntax: the marks the grammar leaves on `address` and `* address` (actions evaluated) and what mnemo_from_att makes of them '
+                      '(evaluated on call / jmp / calll / jmpl / jcc): a plain address is the destination, a starred address stays a 32-bit memory operand', floor=16)
+    branch_target_rule(ctx, R16)
     R9 = report.rule('C09.D9', 'memory forms whose AT&T mnemonic carries no size suffix: the size mnemo_from_att leaves on the operand passes the size check of the /digit row', floor=30)
     att_shapes = att_memory_operand_shapes(ctx)
     ac = arch.method('x86_mn', 'asm_candidates')
@@ -405,7 +408,7 @@ def run(ctx, report):
     R15 = report.rule('C09.D15', 'x86_mn.__str__ evaluated as a whole, in Intel and in AT&T syntax, on every decoder form with an immediate: immediates that differ in a low bit, in '
                       'bits 3-7 or in the top bit give different texts (a rendering that folds the immediate into the mnemonic or masks it cannot yield the original encoding back)', floor=150)
     from .c01 import render_immediate_rule
-    render_immediate_rule(ctx, R15)
+    render_immediate_rule(ctx, R15, sigil=True)
 
     # ---------------------------------------------------------------- D11 both renderings come from one object
     R11 = report.rule('C09.D11', 'rendering does not change the instruction: the Intel and the AT&T rendering of one decoded object describe the same instruction (shared with C12.D11)', floor=4)
@@ -481,6 +484,75 @@ def liberal_swap_rule(ctx, R):
                 R.violation(inst, 'liberal-swap:%s' % att_name[:4], '%s with the operands (%s) as the AT&T parser delivers them: the operand list the caller goes on with still has the register '
                             'first, and no row of %s takes a memory operand in second place -- the line gets no candidate while its Intel transliteration does' % (att_name, order, att_name[:4]),
                             where(arch, from_att.node), witness="asm_att('xchgl (%ebx), %eax') == []")
+
+
+def branch_target_rule(ctx, R):
+    """`call foo` / `jmp 2` / `jne .L1` name the destination itself, `call *(%eax)` / `jmp *8(%ebx)` a memory cell that holds it.  The two grammar actions of ia32_att that build
+    the operand (`argument : address`, `argument : TIMES address`) are evaluated to obtain the marks the parser really leaves on it; mnemo_from_att is then evaluated on every branch
+    mnemonic with each kind of operand: the plain address becomes an immediate, the starred address stays a 32-bit memory operand, a starred register stays a register."""
+    from ..archinterp import arch_interp
+    from ..lifter import LiftUnknown, LiftError
+    from ..consteval import Evaluator as _Ev, NotConst as _NC, PyRaise as _PR
+    X, I = arch_interp(ctx)
+    arch, afs = X.arch, X.afs
+    att = ctx.mod('ia32_att')
+    from_att = I.g.get('mnemo_from_att')
+    if from_att is None:
+        raise AnalysisError('ia32_arch.mnemo_from_att not found')
+    plain_fn, star_fn = None, None
+    for fname, fn in att.funcs.items():
+        doc = ast.get_docstring(fn) or ''
+        prod = ' '.join(doc.split())
+        if prod == 'argument : address':
+            plain_fn = fn
+        elif prod == 'argument : TIMES address':
+            star_fn = fn
+    if plain_fn is None or star_fn is None:
+        raise AnalysisError('ia32_att: the productions `argument : address` and `argument : TIMES address` were not both found')
+
+    def operand(fn, star):
+        addr = {3: 1, afs.imm: 8, afs.size: True, afs.ad: True} if star is not None else {afs.imm: 2, afs.size: True, afs.ad: True}
+        t = [None, '*', addr] if fn is star_fn else [None, addr]
+        try:
+            _Ev({'x86_afs': afs}).call_user(fn, [t])
+        except _PR as e:
+            raise AnalysisError('ia32_att.%s raises %s on a synthetic parse' % (fn.name, e.exc_name))
+        except _NC as e:
+            raise AnalysisError('ia32_att.%s is outside the evaluable subset: %s' % (fn.name, e))
+        return t[0]
+    cases = []
+    for name in ('call', 'jmp', 'calll', 'jmpl'):
+        if name != 'jmpl':          # (clang writes `jmpl *%eax` / `jmpl *(%eax)` only; a direct jump is `jmp`: the plain form of jmpl is not judged)
+            cases.append((name, 'plain address (%s foo)' % name, lambda: operand(plain_fn, None), 'imm'))
+        cases.append((name, 'starred address (%s *8(%%ebx))' % name, lambda: operand(star_fn, True), 'mem'))
+        cases.append((name, 'starred register (%s *%%eax)' % name, lambda: {afs.ad: False, afs.size: afs.u32, 0: 1}, 'reg'))
+    for name in ('jz', 'jne', 'jae', 'js', 'jecxz', 'loop', 'loope', 'loopne'):
+        cases.append((name, 'plain address (%s .L1)' % name, lambda: operand(plain_fn, None), 'imm'))
+    for name, label, mk, want in cases:
+        op = mk()
+        lst = [op]
+        try:
+            r_ = I.run(from_att, [[], name, lst, 'att_syntax'])
+        except LiftUnknown as e:
+            raise AnalysisError('mnemo_from_att outside the modelled subset on %s: %s' % (name, e))
+        inst = 'branch-operand:%s:%s' % (name, want)
+        if any(isinstance(res_, LiftError) for _, res_ in r_):
+            R.violation(inst, 'branch-operand:%s:rejected' % name, 'mnemo_from_att rejects %s with a %s' % (name, label), where(arch, from_att.node))
+            continue
+        got_ad = lst[0].get(afs.ad) if lst and isinstance(lst[0], dict) else None
+        if want == 'imm':
+            good = got_ad in (False, None) and afs.imm in lst[0]
+        elif want == 'mem':
+            good = bool(got_ad) and lst[0].get(3) == 1
+        else:
+            good = got_ad in (False, None) and lst[0].get(0) == 1
+        if good:
+            R.ok(inst, sample='%s: %s' % (label, {'imm': 'the destination itself', 'mem': 'stays a memory operand', 'reg': 'stays a register'}[want]))
+        else:
+            R.violation(inst, 'branch-operand:%s:%s' % ('call-jmp' if name in ('call', 'jmp', 'calll', 'jmpl') else 'jcc', want),
+                        '%s: after mnemo_from_att the operand is %s; it must %s' % (label, 'a memory operand' if got_ad else 'not a memory operand (ad = %r)' % (got_ad,),
+                                                                                 {'imm': 'be the destination (an immediate)', 'mem': 'stay the memory cell that holds the destination (FF /2, FF /4)',
+                                                                                  'reg': 'stay a register'}[want]), where(arch, from_att.node), witness="asm_att('call *(%eax)') must be ff 10")
 
 
 def far_order_rule(ctx, R8):
@@ -583,6 +655,10 @@ def numpy_imm_eval(ctx, args10):
 
 
 MUTANTS = [
+    ('loop-operand-left-memory', 'miasmx/arch/ia32_arch.py', "    elif name.startswith('j') or name.startswith('loop'):", "    elif name.startswith('j'):", 'C09.D16'),
+    ('loop-rendered-with-sigil', 'miasmx/arch/ia32_arch.py', "            if mnemo[-1] == 'call' or mnemo[-1].startswith('j') \\\n                    or mnemo[-1].startswith('loop'):", "            if mnemo[-1] == 'call' or mnemo[-1].startswith('j'):", 'C09.D15'),
+    ('star-address-cleared', 'miasmx/arch/ia32_arch.py', "    if name in ['call', 'jmp']:\n        for a in args:\n            if a[x86_afs.ad] == True:", "    if name in ['call', 'jmp']:\n        for a in args:\n            if a[x86_afs.ad]:", 'C09.D16'),
+
     ('sse-cmp-pseudo-op-revived', 'miasmx/arch/ia32_arch.py', "'cmpsd', 'cmpss'] and len(args)==2 \\\n", "'cmpsd', 'cmpss'] and len(args)==3 \\\n", 'C09.D15'),
     ('unsized-mem-no-default', 'miasmx/arch/ia32_arch.py', "            if len(sizes) == 1 and not None in sizes:", "            if False:", 'C09.D9'),
     ('bound-reversed', 'miasmx/arch/ia32_arch.py', "att_same_order = ['bound', 'enter']", "att_same_order = ['enter']", 'C09.D8'),
